@@ -322,5 +322,5 @@ func (t *Transcript) AddResult(msgs []sdk.Msg, r Result) {
 
 // ShadowStats counts what ran on discarded branches (scripts, and transactions by outcome) in this process.
 var ShadowStats struct {
-	Scripts, TxOK, TxRejected, Speculated, Restarts atomic.Int64
+	Scripts, TxOK, TxRejected, Speculated, Restarts, Migrations atomic.Int64
 }
